@@ -178,7 +178,7 @@ def canonE (ranks : List Nat) (es : EState) : EState :=
   { s := canonState es.s,
     lfu := (es.lfu.map fun (d, c) => (d, (⟨srt c.keys, c.cells.map fun o => o.map fun e => { e with added := rankOf ranks e.added }⟩ : Cache LfuE))).mergeSort (fun a c => a.1 ≤ c.1),
     lru := (es.lru.map fun (d, c) => (d, (⟨srt c.keys, c.cells.map fun o => o.map fun e => { e with time := rankOf ranks e.time }⟩ : Cache LruE))).mergeSort (fun a c => a.1 ≤ c.1),
-    ticks := 0 }
+    ticks := 0, phase := 0 }
 
 def ranksFor (pre post : EState) : List Nat := (stampsOf pre ++ stampsOf post).eraseDups.mergeSort (· ≤ ·)
 
@@ -209,8 +209,8 @@ def eStateDiff (m i : EState) : Option String :=
 
 def died (t : ETransition) : Bool := t.kind == "panic" || t.kind == "crash" || t.kind == "hang"
 
-def envFor (t : ETransition) (mask order : Nat) (flip : List Bytes := []) : Env :=
-  { base := 1 + (stampsOf t.pre).foldl max 0, mask := mask, dbOrder := order, flip := flip,
+def envFor (t : ETransition) (mask order : Nat) (flip : List Bytes := []) (holdUntil : Nat := 0) : Env :=
+  { base := 1 + (stampsOf t.pre).foldl max 0, mask := mask, dbOrder := order, flip := flip, hold := t.cmd.drop 1, holdUntil := holdUntil,
     keep := match t.post with
       | some p => p.s.dbs.map fun (d, x) => (d, x.store.map (·.1))
       | none => [],
@@ -238,10 +238,10 @@ def eReplyDiff (r : ERes) (t : ETransition) : Option String :=
   else some s!"outcome model=returns impl={t.kind}"
 
 /-- model agreement for one resolution of the open choices; also returns the model's transition for the classifier -/
-def verdictEWith (t : ETransition) (mask order : Nat) (flip : List Bytes := []) (cmd : Option (List Bytes) := none) : String × Option (Except Halt (ERes × EState)) :=
+def verdictEWith (t : ETransition) (mask order : Nat) (flip : List Bytes := []) (cmd : Option (List Bytes) := none) (holdUntil : Nat := 0) : String × Option (Except Halt (ERes × EState)) :=
   if !t.idxOk then ("DIFF index-field of a heap cell differs from its position", none) else
   if callerDbE t != t.ctx.db && t.cmd.headD [] != b "@tick" then (s!"DIFF context-db dispatcher={t.ctx.db} connection-table={callerDbE t}", none) else
-  match stepE t.ctx (envFor t mask order flip) t.pre (cmd.getD t.cmd) with
+  match stepE t.ctx (envFor t mask order flip holdUntil) t.pre (cmd.getD t.cmd) with
   | none => ("SKIP unmodelled-command", none)
   | some r =>
     (match r with
@@ -279,9 +279,10 @@ def eVerdict (t : ETransition) : String × Option (Except Halt (ERes × EState))
     if toLower (t.cmd.headD []) == b "del" && (t.cmd.drop 1).eraseDups.length ≥ 2 && (t.cmd.drop 1).eraseDups.length ≤ 4 then
       (perms (t.cmd.drop 1).eraseDups).map fun ks => t.cmd.take 1 ++ ks
     else [t.cmd]
-  let cands := cmds.flatMap fun c => masks.flatMap fun m => (List.range orders).flatMap fun o => flips.map fun f => (m, o, f, c)
-  match (cands.drop 1).findSome? fun (m, o, f, c) =>
-      let v := verdictEWith t m o f (some c)
+  let holds := if random then [0, 1, 2, 3] else [0]
+  let cands := cmds.flatMap fun c => masks.flatMap fun m => (List.range orders).flatMap fun o => holds.flatMap fun hu => flips.map fun f => (m, o, f, c, hu)
+  match (cands.drop 1).findSome? fun (m, o, f, c, hu) =>
+      let v := verdictEWith t m o f (some c) hu
       if v.1.startsWith "DIFF" then none else some v with
   | some v => v
   | none => first
